@@ -1332,3 +1332,12 @@ entry_extend(
                 "reach the handler / the boundary method of the mode unchanged. _contract_boundary_core: every "
                 "_compress_between_tids / compress_plane call receives the caller's max_bond, cutoff, equalize_norms and "
                 "compress_opts (+ default absorb only) [max_bond=None with compress_late=False FAILS: int > None].")
+
+
+# extension entries kept one file per property (contracts/index_ext_cNN*.py, each calling entry_extend) so that
+# contract authors working in parallel never edit this file; imported in name order
+import glob as _glob  # noqa: E402
+import os as _os  # noqa: E402
+
+for _p in sorted(_glob.glob(_os.path.join(_os.path.dirname(_os.path.abspath(__file__)), "index_ext_*.py"))):
+    importlib.import_module("contracts." + _os.path.basename(_p)[:-3])
